@@ -37,6 +37,7 @@ type LemmaDef struct {
 	Line                             int
 	Known                            string // id of a known finding whose region is excluded in the statement
 	ReplayPkg, ReplayKind, ReplayArg string
+	Finding                          string   // id of the known finding this lemma is expected to be refuted by
 	Also                             []string // further concrete inputs to try on the real code when the lemma fails
 }
 
@@ -61,6 +62,14 @@ func parseLemmaDef(text, file string, line int) (*LemmaDef, error) {
 	}
 	lm := &LemmaDef{Name: m[1], Text: m[2], File: file, Line: line}
 	body := m[2]
+	// trailing "finding ID": the lemma states the property in full and is expected to be refuted
+	if k := strings.Index(body, " finding "); k >= 0 {
+		f := strings.Fields(body[k+9:])
+		if len(f) >= 1 {
+			lm.Finding = f[0]
+		}
+		body = strings.TrimSpace(body[:k] + " " + strings.Join(f[1:], " "))
+	}
 	// trailing `also "input" "input"...`
 	if k := strings.Index(body, " also "); k >= 0 {
 		rest := strings.TrimSpace(body[k+6:])
@@ -663,6 +672,7 @@ func (p *Prog) collectLeaves(e ast.Expr, out map[string]bool, needLower *bool, s
 			return nil
 		}
 		seen[x.Name] = true
+		p.ensureAnyOf(x.Name)
 		ld, ok := p.spec.Langs[x.Name]
 		if !ok {
 			// a code regex not yet registered: re_<var>
@@ -844,6 +854,10 @@ func (le *langEnv) dfa(e ast.Expr) (*DFA, error) {
 }
 
 // codeRegexPattern finds the constant pattern of a package-level regexp variable of the repo.
+func (p *Prog) codeRegexPatternLocked(varName string) (string, error) {
+	return p.codeRegexPattern(varName)
+}
+
 func (p *Prog) codeRegexPattern(varName string) (string, error) {
 	for _, pk := range p.pkgs {
 		obj := pk.Types.Scope().Lookup(varName)
@@ -980,4 +994,44 @@ func charSeqAxiom(name, pattern string) string {
 		tests = append(tests, sOr(ds...))
 	}
 	return fmt.Sprintf("(assert (forall (%s) (! (= (inlang_%s %s) %s) :pattern ((inlang_%s %s)))))", strings.Join(vars, " "), name, term, sAnd(tests...), name, term)
+}
+
+// declareRemoval registers the uninterpreted function rm_<var> and, for every "removal" directive
+// about it, the axiom  not inlang(re_<invalid>, rm_<var>(s))  <=>  inlang(<Acc>, s).
+func (p *Prog) declareRemoval(v string) {
+	p.rxMu.Lock()
+	defer p.rxMu.Unlock()
+	name := "rm_" + v
+	if _, ok := p.spec.Funcs[name]; ok {
+		return
+	}
+	def := fmt.Sprintf("(declare-fun %s (BSeq) BSeq)", name)
+	var langs []string
+	for _, r := range p.spec.Raw["removal"] {
+		f := strings.Fields(r.Text)
+		if len(f) >= 3 && f[0] == v {
+			def += fmt.Sprintf("\n(assert (forall ((s BSeq)) (! (= (not (inlang_re_%s (%s s))) (inlang_%s s)) :pattern ((%s s)))))", f[1], name, f[2], name)
+			langs = append(langs, "re_"+f[1], f[2])
+			if _, ok := p.spec.Langs["re_"+f[1]]; !ok {
+				if pat, err := p.codeRegexPatternLocked(f[1]); err == nil {
+					p.codeRegex["re_"+f[1]] = pat
+					p.spec.Langs["re_"+f[1]] = &LangDef{Name: "re_" + f[1], Text: "code:" + pat, Code: true}
+				}
+			}
+		}
+	}
+	p.spec.Funcs[name] = &SpecFunc{Name: name, Params: []SpecParam{{"s", "seq"}}, Ret: "seq", Prerendered: def, PreLangs: langs}
+	p.spec.FuncOrder = append(p.spec.FuncOrder, name)
+}
+
+// ensureAnyOf registers the engine-generated language anyof_XX_YY ("contains one of these bytes").
+func (p *Prog) ensureAnyOf(name string) {
+	if !strings.HasPrefix(name, "anyof_") {
+		return
+	}
+	var cls strings.Builder
+	for _, h := range strings.Split(strings.TrimPrefix(name, "anyof_"), "_") {
+		cls.WriteString("\\x" + h)
+	}
+	p.registerSpecRegex(name, "(?s)["+cls.String()+"]")
 }
